@@ -72,6 +72,9 @@ static __attribute__((noinline)) void collapse_case(unsigned I) {
     if (s0.cdel[c] || (r_cell_has_v(c, a) && r_cell_has_v(c, b))) continue;
     int t[4]; r_tuple(c, r_chf(c, 0), 0, t);
     for (int k = 0; k < 4; ++k) E[nExp][k] = (t[k] == a) ? b : t[k];
+#ifdef C15_MUTANT   // test of the test (tools/try_job.py --define C15_MUTANT): a wrongly oriented expectation must be refuted
+    { int sw = E[nExp][0]; E[nExp][0] = E[nExp][1]; E[nExp][1] = sw; }
+#endif
     X[nExp] = x; ++nExp;
   }
   build_adj();
